@@ -118,3 +118,11 @@ def dataset_accessor(env, g, m):
     b = getattr(ds.efth.spec, m)()
     env.claim(tuple(a.dims) == tuple(b.dims), "same dims through the Dataset accessor")
     env.close(a.values, b.values, "Dataset accessor agrees with the efth accessor", rel=0.0, abs_=0.0, ctol=1e-12, catol=0.0)
+
+
+# shared static buffers / memory layout: the C boundary harness of C05 also decides independence of neighbouring
+# positions (a strided per-spectrum slice makes the extension read the other positions' values)
+from vt.harness import HarnessInstance, REGISTRY  # noqa: E402
+from vt.props.c05 import _c_boundary, _replay_c_boundary  # noqa: E402
+
+REGISTRY.setdefault(P, []).append(HarnessInstance(P, _c_boundary, {}, ("quick", "thorough"), {"custom": True, "replay": _replay_c_boundary}))
